@@ -34,12 +34,15 @@ pub const RANK_STRUCTS: &[&str] = &[
     "szac(sac(ranksmall4))", "map:sa->rank9", "map:sac62->ranksmall1", "map:rank9->sa", "map:ranksmall3->sza",
     // the same structures over boxed and borrowed bit vectors
     "box:rank9", "box:ranksmall1", "box:ranksmall4", "ref:rank9", "ref:ranksmall2", "box:select9", "ref:ss2", "box:sza(sa(rank9))",
+    // AddNumBits above other structures (it forwards, or re-implements, every other trait)
+    "anb(sza(rank9))", "sa(anb(sza(rank9)))", "anb(ranksmall2)",
 ];
 pub const SELECT_STRUCTS: &[&str] = &[
     "sa", "sa_span", "sac", "sac_6_0", "sac_8_2", "sac_4_1", "sac_10_3", "sza", "szac", "szac_6_0", "szac_9_2", "select9", "ss0", "ss1", "ss2", "ss3", "ss4", "szs0", "szs1", "szs2", "szs3",
     "szs4", "sa(rank9)", "sac(rank9)", "sza(sa)", "szac(sac)", "sza(sa(rank9))", "szs0(ss0)", "szs3(ss3)", "sza(select9)", "rank9(sa)", "ranksmall2(sza(sa))", "szac(sac(ranksmall4))", "sa(sza)",
     "ss1(ranksmall1)+sza", "map:sa->rank9", "map:sac62->ranksmall1", "map:szac51->sac", "map:sza->sa", "map:rank9->sa", "map:ranksmall3->sza", "map:sac->addnumbits",
     "box:sa", "ref:sa", "box:sac", "box:sza", "ref:szac", "box:select9", "ref:select9", "box:ss3", "ref:szs1", "box:sza(sa)", "ref:ss2", "box:sza(sa(rank9))",
+    "anb(sza(rank9))", "sa(anb(sza(rank9)))", "anb(sza(sa))", "anb(select9)", "anb(szs1(ss1))",
 ];
 
 fn bit_of(c: &RanksCase, i: usize, total: usize) -> bool {
@@ -497,6 +500,18 @@ fn run_structure(prop: &str, c: &RanksCase, bv: BitVec<Vec<usize>>, m: &Model, o
             }
         }};
     }
+    macro_rules! rank_sel_selz_nosel {
+        ($s:expr) => {{
+            let s = $s;
+            chk_basic!(s, m, out, name);
+            chk_numbits!(s, m, out, name, tail);
+            if do_rank {
+                chk_rank!(s, m, out, name, tail, seed);
+            } else {
+                chk_select_zero!(s, m, out, name, tail, seed);
+            }
+        }};
+    }
     macro_rules! sel_selz {
         ($s:expr) => {{
             let s = $s;
@@ -544,6 +559,12 @@ fn run_structure(prop: &str, c: &RanksCase, bv: BitVec<Vec<usize>>, m: &Model, o
                 other => panic!("unknown borrowed structure {other}"),
             }
         }
+        "anb(sza(rank9))" => rank_sel_selz_nosel!(AddNumBits::from(SelectZeroAdapt::with_inv(Rank9::new(bv), inv, sub))),
+        "sa(anb(sza(rank9)))" => rank_sel_selz!(SelectAdapt::with_inv(AddNumBits::from(SelectZeroAdapt::with_inv(Rank9::new(bv), (inv + 2) % 17, sub)), inv, sub)),
+        "anb(ranksmall2)" => rank_only!(AddNumBits::from(RankSmall::<1, 10>::new(bv))),
+        "anb(sza(sa))" => sel_selz!(AddNumBits::from(SelectZeroAdapt::with_inv(SelectAdapt::with_inv(AddNumBits::from(bv), inv, sub), (inv + 3) % 17, (sub + 1) % 6))),
+        "anb(select9)" => rank_sel!(AddNumBits::from(Select9::new(Rank9::new(bv)))),
+        "anb(szs1(ss1))" => rank_sel_selz!(AddNumBits::from(SelectZeroSmall::<1, 9, _>::with_inv(SelectSmall::<1, 9, _>::with_inv(RankSmall::<1, 9>::new(bv), blocks), 1 + blocks % 5))),
         "rank9" => rank_only!(Rank9::new(bv)),
         "ranksmall0" => rank_only!(RankSmall::<2, 9>::new(bv)),
         "ranksmall1" => rank_only!(RankSmall::<1, 9>::new(bv)),
